@@ -79,7 +79,7 @@ func regCmd(args []string) error {
 		} else if strings.Contains(sc.Stack, "immw(") {
 			wrap = "immw"
 		}
-		if *record && wrap == "none" && strings.Contains(sc.Stack, "http") && !strings.Contains(sc.Stack, "sub(") && !strings.Contains(sc.Stack, "unify") && !strings.Contains(sc.Stack, "redir") {
+		if *record && wrap == "none" && strings.Contains(sc.Stack, "http") && !strings.Contains(sc.Stack, "sub(") && !strings.Contains(sc.Stack, "unify") && !strings.Contains(sc.Stack, "redir") && !strings.Contains(sc.Stack, "funcsnr") {
 			env.wrapMem = func(r ociregistry.Interface) ociregistry.Interface {
 				rec = &recorder{Interface: r, cat: cat}
 				return rec
@@ -106,7 +106,7 @@ func regCmd(args []string) error {
 			w.prefix = env.subPrefix
 		}
 		w.emit(ev{"op": "reset", "imm": sc.Imm, "stack": sc.Stack, "hops": strings.Count(sc.Stack, "http"), "rec": rec != nil,
-			"omitdigest": strings.Contains(sc.Stack, "omitdigest"), "wrap": wrap, "minchunk": minChunkOf(sc.Stack, env)})
+			"omitdigest": strings.Contains(sc.Stack, "omitdigest"), "norange": strings.Contains(sc.Stack, "funcsnr"), "wrap": wrap, "minchunk": minChunkOf(sc.Stack, env)})
 		ctx := context.Background()
 		for i, op := range sc.Ops {
 			npre := *pre
